@@ -134,7 +134,16 @@ def random_case(draw, gates, maxdepth):
     # of 1000 is per expression, so the number of statements must not matter to either spelling)
     rep = draw(st.sampled_from([1] * 12 + [300, 1100, 2500]))
     if rep > 1:
-        return template(place(exprs[:2] * rep, no_let=True), {"random": 1, "repeated": rep})
+        if draw(st.booleans()):
+            # make sure the repeated statements contain the forms only the infix spelling has: a bare unary operator at
+            # the head of an unparenthesised chain (`if -ia + e < 10`, `if not ba and e`)
+            e0, t0 = exprs[0]
+            if t0 == "int":
+                exprs[0] = (("bin", draw(st.sampled_from(["+", "-", "*"])), ("un", "-", ("var", draw(st.sampled_from(["ia", "ib", "ic"]))), "i"), e0, "i"), "int")
+            else:
+                exprs[0] = (("bin", draw(st.sampled_from(["and", "or"])), ("un", "not", ("var", draw(st.sampled_from(["ba", "bb"]))), "i"), e0, "i"), "bool")
+        first = [exprs[0]] * 3 if len(exprs) == 1 else [exprs[0], exprs[1], exprs[0]]
+        return template(place(first * rep, no_let=True)[: 3 * rep], {"random": 1, "repeated": rep})
     return template(place(exprs), {"random": 1})
 
 
